@@ -337,6 +337,18 @@ Definition c07_step (rf0 : nat) (prev : obs) (e : event) (cur : obs) : bool :=
   | _ => true
   end.
 
+(** no event other than a verify request for that replica - or the administrative mode override
+    (PUT /v1/replicas/{id} {mode: RW}), which compares nothing - turns a listed WO replica into RW *)
+Definition c07_only_verify (prev : obs) (e : event) (cur : obs) : bool :=
+  forallb (fun p =>
+    if is_mode (o_replicas prev) (fst p) WO && mode_eqb (snd p) RW
+    then match e with
+         | Verify a _ => Nat.eqb a (fst p)
+         | SetMode a RW => Nat.eqb a (fst p)
+         | _ => false
+         end
+    else true) (o_replicas cur).
+
 Record verdict := mkverdict {
   v_diff : option (nat * nat);
   v_c02 : option nat; v_c03 : option nat; v_c04 : option nat; v_c05 : option nat;
@@ -385,7 +397,7 @@ Definition check_case (x : xcase) : verdict :=
     (walk_q (fun q => lift (c18_step rf0 q) (fun prev a b cur => c18_step rf0 q prev (SetMode 0%nat WO) cur)) 0 o0 (c_events c) (c_obs c) (x_quiet x))
     (walk (lift (c01_step rf0) nopair) 0 o0 (c_events c) (c_obs c))
     (walk (lift (c16_step rf0) nopair) 0 o0 (c_events c) (c_obs c))
-    (walk (lift (c07_step rf0) nopair) 0 o0 (c_events c) (c_obs c)).
+    (walk (lift (fun prev e cur => c07_step rf0 prev e cur && c07_only_verify prev e cur) nopair) 0 o0 (c_events c) (c_obs c)).
 
 Definition on (o : option nat) : nat := match o with Some i => S i | None => 0%nat end.
 
